@@ -213,7 +213,63 @@ func coerce2(a, b T) (T, T) {
 	return a, b
 }
 
-func sel(arr T, idx T) T  { return app(arr.K.elem(), "select", arr, idx) }
+func rawSel(arr T, idx T) T { return app(arr.K.elem(), "select", arr, idx) }
+
+type storeInfo struct{ base, idx, val T }
+
+// sel builds (select arr idx), simplified by read-over-write when the array is
+// (a constant defined as) a store term whose index is syntactically equal or
+// provably distinct.
+func (c *Ctx) sel(arr T, idx T) T {
+	cur := arr
+	for depth := 0; depth < 64; depth++ {
+		s := cur.S
+		if d, ok := c.defOf[s]; ok {
+			s = d
+		}
+		info, ok := c.stores[s]
+		if !ok {
+			break
+		}
+		if info.idx.S == idx.S {
+			return info.val
+		}
+		if c.provablyDistinct(info.idx, idx) {
+			cur = info.base
+			continue
+		}
+		break
+	}
+	return rawSel(cur, idx)
+}
+
+func (c *Ctx) provablyDistinct(a, b T) bool {
+	if isIntNumeral(a.S) && isIntNumeral(b.S) {
+		return a.S != b.S
+	}
+	if ga, ok := c.distinctGrp[a.S]; ok {
+		if gb, ok := c.distinctGrp[b.S]; ok && ga == gb && a.S != b.S {
+			return true
+		}
+	}
+	return false
+}
+
+func isIntNumeral(s string) bool {
+	if strings.HasPrefix(s, "(- ") && strings.HasSuffix(s, ")") {
+		return isDigits(s[3 : len(s)-1])
+	}
+	return isDigits(s)
+}
+
+func (c *Ctx) sto(arr, idx, v T) T {
+	t := sto(arr, idx, v)
+	if c.stores == nil {
+		c.stores = map[string]storeInfo{}
+	}
+	c.stores[t.S] = storeInfo{arr, idx, v}
+	return t
+}
 func sto(arr, idx, v T) T {
 	if arr.K.elem() == SReal {
 		v = toReal(v)
@@ -262,7 +318,7 @@ type solveResult struct {
 	All    map[string]string
 }
 
-var solverSem = make(chan struct{}, 16)
+var solverSem = make(chan struct{}, 20) // concurrent solver processes
 
 type queryVariant struct {
 	tag      string // "" for the full query
@@ -273,8 +329,6 @@ type queryVariant struct {
 // solve races the installed solvers on the query variants; the first
 // definitive answer wins (sat only from variants whose sat is meaningful).
 func solve(dir, name string, variants []queryVariant, timeoutS int) solveResult {
-	solverSem <- struct{}{}
-	defer func() { <-solverSem }()
 	os.MkdirAll(dir, 0o755)
 	base := filepath.Join(dir, sanitize(name))
 	ctx, cancel := context.WithCancel(context.Background())
@@ -300,6 +354,13 @@ func solve(dir, name string, variants []queryVariant, timeoutS int) solveResult 
 			wg.Add(1)
 			go func() {
 				defer wg.Done()
+				select {
+				case solverSem <- struct{}{}:
+				case <-ctx.Done():
+					ch <- one{tag, "cancelled", "", 0, false}
+					return
+				}
+				defer func() { <-solverSem }()
 				t0 := time.Now()
 				argv := s.argv(file, timeoutS)
 				cmd := exec.CommandContext(ctx, argv[0], argv[1:]...)
